@@ -18,7 +18,8 @@ Inductive trig := TNone | TCtxBefore | TCtxSetup | TCtxSteady | TCloseBefore | T
 
 Record ccall := {
   cc_trig : trig; cc_arg : nat; cc_handler : handler;
-  cc_coords : list bool; cc_joins : list jv; cc_syncs : list sv; cc_fetches : list bool; cc_nocreate : list part;
+  cc_coords : list bool; cc_joins : list jv; cc_syncs : list sv; cc_fetches : list bool;
+  cc_attempts : list (part * (bool * bool));   (* outcome of the ConsumePartition attempts (Model.claim_try), default both fine *)
   cc_hbs : list hv; cc_commits : list bool;
   cc_started : list part; cc_consumed : list (part * nat); cc_produce : list part;
   cc_fired : bool;                 (* the steady-state trigger was pulled before Consume returned *)
@@ -89,15 +90,19 @@ Definition trig_inputs (c : ccall) : list input :=
   | _ => []
   end.
 
+Fixpoint att_lookup (l : list (part * (bool * bool))) (p : part) : bool * bool :=
+  match l with [] => (true, true) | (q, a) :: r => if Z.eqb p q then a else att_lookup r p end.
+Definition go (c : ccall) (p : part) : input := let a := att_lookup (cc_attempts c) p in IClaimGo p (fst a) (snd a).
+Definition faulty (c : ccall) (p : part) : bool := let a := att_lookup (cc_attempts c) p in negb (fst a && snd a).
 Definition running_chunk (c : ccall) (plan : list part) : list input :=
   let rest := filter (fun p => negb (memz p (cc_started c))) plan in
-  map (fun p => IClaimGo p true) (cc_started c)
+  map (go c) (cc_started c)
   ++ flat_map (fun pn => repeat (IDeliver (fst pn)) (snd pn)) (cc_consumed c)
   ++ trig_inputs c
   ++ map IClaimReturn (cc_started c)
-  ++ map (fun p => IClaimGo p false) (filter (fun p => memz p (cc_nocreate c)) rest)
+  ++ map (go c) (filter (faulty c) rest)
   ++ map IClaimReturn (cc_started c)
-  ++ map (fun p => IClaimGo p true) (filter (fun p => negb (memz p (cc_nocreate c))) rest)
+  ++ map (go c) (filter (fun p => negb (faulty c p)) rest)
   ++ map IClaimReturn (cc_started c)
   ++ [IWatch; IRelease].
 
